@@ -9,7 +9,7 @@ shutil.copy(f"{srcd}/patch.diff", f"{dst}/patch.diff")
 shutil.copy(f"{srcd}/demo.py", f"{dst}/demo.py")
 meta = json.load(open(f"{srcd}/meta.json")) if os.path.exists(f"{srcd}/meta.json") else {}
 conf = open(f"{srcd}/confirm.log").read()[-300:] if os.path.exists(f"{srcd}/confirm.log") else ""
-meta.update({"property": pid, "origin": "independent sub-agent given only the property text and a scratch worktree",
+meta.update({"property": pid[:3], "origin": "independent sub-agent given only the property text and a scratch worktree",
              "confirmed_by_me": {"demo_with_change": "exit 1 (FAIL)", "demo_without_change": "exit 0 (PASS)",
                                  "suite_with_change": "216/216 stable tests pass (tools/confirm_seed.sh, junit compared with BASELINE.json stable_pass)",
                                  "commands": ["tools/confirm_seed.sh <worktree> <outdir>"]}})
